@@ -203,6 +203,17 @@ def run_update(ck_ob, mod, label):
                 nlen = p.eqs.get(NLEN)
                 if nlen is None:
                     raise Broken("tinyjambu_hash_update: a path returns before the block loop without its conditions fixing the input length (buffer position %d): unrecognised shape" % pz)
+                if pz > 0 and pz + nlen == 16:
+                    # the input fills the buffer exactly and the function returns right after compressing it (no block loop needed)
+                    seen["A"].add((pz, nlen))
+                    blk = pend + [mode.inbyte(IN, i) for i in range(nlen)]
+                    r_ = check_compress_events(lambda rule, cond, cons, ok, bad, where=None: c(rule, cond, cons + "(posn=%d)" % pz, ok, bad, where), f, p, pev, S0, K0, blk, 0, "exact-fill")
+                    if r_:
+                        c("CONSTR", mode.words_eq(words_at(p, ST, 0, 8), r_[0] + r_[1]), "exact-fill-result(posn=%d)" % pz, "chaining value = (L', NOT R')",
+                          "stored chaining value differs: %s" % mode.first_diff(words_at(p, ST, 0, 8), r_[0] + r_[1]))
+                    c("STREAM", posn_end == Lf.c(0), "exact-fill-posn(posn=%d)" % pz, "buffer empty (position 0) after the block was compressed", "buffer position is %s after an exactly filled block was compressed, expected 0" % posn_end)
+                    n += 8
+                    continue
                 seen["A"].add((pz, nlen))
                 okb = all(mem_byte(p, ST, 32 + pz + i) == mode.inbyte(IN, i) for i in range(nlen)) and all(mem_byte(p, ST, 32 + i) == pend[i] for i in range(pz))
                 c("STREAM", not pev and pz + nlen < 16, "short-no-compress(posn=%d,len=%d)" % (pz, nlen), "buffer not full: nothing compressed", "compression although only %d bytes are buffered" % (pz + nlen))
@@ -278,9 +289,10 @@ def run_update(ck_ob, mod, label):
             c("STREAM", mode.words_eq(words_at(p, ST, 0, 8), S0 + K0), "tail-chaining(%d)" % r, "chaining value untouched", "chaining value modified without a compression")
             n += 4
     wantA = {(pz, ln) for pz in range(1, 16) for ln in range(0, 16 - pz)}
-    if seen["B"] != set(range(16)) or seen["A"] != wantA or any(seen["exit"][h] != set(range(16)) or seen["iter"][h] < 1 for h in tops):
+    exact = {(pz, 16 - pz) for pz in range(1, 16)}
+    if seen["B"] != set(range(16)) or not (wantA <= seen["A"] <= wantA | exact) or any(seen["exit"][h] != set(range(16)) or seen["iter"][h] < 1 for h in tops):
         raise Broken("tinyjambu_hash_update: the path classes found do not partition (buffer position, length) the way the stream machine is analysed "
-                     "(entry %d/16, short %d/%d, tails %s): unrecognised shape" % (len(seen["B"]), len(seen["A"] & wantA), len(wantA), [len(seen["exit"][h]) for h in tops]))
+                     "(entry %d/16, short %d/%d extra %s, tails %s iterations %s): unrecognised shape" % (len(seen["B"]), len(seen["A"] & wantA), len(wantA), sorted(seen["A"] - wantA)[:3], [sorted(seen["exit"][h]) for h in tops], [seen["iter"][h] for h in tops]))
     c("STREAM", True, "classes-entry", "all 16 buffer positions reach the block loop when enough input is given", "")
     c("STREAM", True, "classes-short", "all (position, short length) classes handled (%d)" % len(wantA), "")
     c("STREAM", True, "classes-loop", "whole-block iteration and all 16 tail lengths handled", "")
